@@ -40,8 +40,8 @@ def run(ck):
                 if isinstance(i, dict) and i.get("k") == "construct" and i.get("class") == cls and (pred is None or pred(i)):
                     out.append((v, i, n))
         return out
-    files = local_of_class("QFile")
-    ck.require(len(files) == 2, "compressFile no longer uses two QFile locals")
+    files = local_of_class("QFile") + local_of_class("QSaveFile")
+    ck.require(len(files) == 2, "compressFile no longer uses two QFile/QSaveFile locals")
     inp = [f for f in files if is_ref_to(f[1]["args"][0], fn.params[0]["decl"])]
     outp = [f for f in files if f not in inp]
     ck.require(len(inp) == 1 and len(outp) == 1, "input/output files not recognised")
@@ -181,11 +181,14 @@ def run(ck):
             ck.ob("C08-O5", sitestr(fn, reads[0]), ok, "the input is rewound between the CRC pass and readAll()" if ok else "readAll() after the CRC pass without seek(0): the payload is empty", key="compressFile|no-rewind")
         else:
             ck.ob("C08-O5", sitestr(fn, reads[0]), True, "the payload is read before the CRC pass (which rewinds itself)")
-    closes = [n for n in fn.calls(("QFileDevice::close", "QFile::close", "QIODevice::close")) if is_ref_to(n.get("obj"), outdecl)]
+    closes = [n for n in fn.calls(("QFileDevice::close", "QFile::close", "QIODevice::close", "QSaveFile::commit")) if is_ref_to(n.get("obj"), outdecl)]
     rem = [n for n in fn.calls() if destructive_kind(n) == "remove"]
     ck.require(len(rem) == 1, "compressFile has %d remove calls" % len(rem))
     rms = g.site_of(rem[0])
     okc = bool(closes) and g.dominated(rms, set(g.sites_of_nodes(closes)))
+    for c_ in closes:
+        if name_is(c_.get("callee"), "QSaveFile::commit") and rms in g.live(g.projector(atom_eq(value_pred(fn, c_), False))):
+            okc = False   # the archive only exists if commit() returned true
     ck.ob("C08-O5", sitestr(fn, rem[0]), okc, "the original is removed only after the compressed file was closed" if okc else "the original can be removed while the compressed file is still open/unflushed", key="compressFile|remove-before-close")
     # (the payload write is legitimately conditional; the trailer words must have been written and nothing may follow)
     allw = all(g.dominated(rms, {sites[w["id"]]}) for w in (w1, w2)) and all(not g.can_reach(rms, sites[w["id"]]) for w in wr)
@@ -197,11 +200,13 @@ def run(ck):
     # early returns: before any write/remove
     for r in returns(fn):
         rs_ = g.site_of(r)
-        pre = [w for w in wr if g.can_reach(sites[w["id"]], rs_)] + ([rem[0]] if g.can_reach(rms, rs_) else [])
+        # an uncommitted QSaveFile is discarded when it goes out of scope: a return after writes leaves nothing behind
+        transactional = outp[0][1].get("class") == "QSaveFile"
+        pre = ([] if transactional else [w for w in wr if g.can_reach(sites[w["id"]], rs_)]) + ([rem[0]] if g.can_reach(rms, rs_) else [])
         if pre:
             ck.ob("C08-O5", sitestr(fn, r), False, "an early return leaves a partial compressed file after %s" % describe(pre[0])[:50], key="compressFile|partial-output")
     ck.ob("C08-O5", sitestr(fn), True, "%d early returns, all before the first write" % len(returns(fn)))
-    opens = [n for n in fn.calls(("QFile::open", "QIODevice::open", "QFileDevice::open"))]
+    opens = [n for n in fn.calls(("QFile::open", "QIODevice::open", "QFileDevice::open", "QSaveFile::open"))]
     for o in opens:
         if is_ref_to(o.get("obj"), outdecl):
             fl = open_flags(o)
